@@ -33,7 +33,8 @@ from lib import common as C
 
 ID = "C17"
 PROP_MODULES = ["GPVerif.Props.C17"]
-BUILD_TARGETS = ["GPVerif.Props.C17", "GPVerif.Gen.Constraints", "GPVerif.Gen.Priors", "GPVerif.Model.ParamStore", "GPVerif.Model.Priors"]
+BUILD_TARGETS = ["GPVerif.Props.C17", "GPVerif.Gen.Constraints", "GPVerif.Gen.Priors", "GPVerif.Gen.InitDispatch",
+                 "GPVerif.Model.ParamStore", "GPVerif.Model.Priors"]
 RULE = ("(a) transform sweeps: 4 constraint classes x scalar/tensor bounds x {special values over the whole finite float "
         "range, random}; distinct = (class, bounds, x-bucket); (b) every constructible class of kernels/likelihoods/means "
         "__all__ x every constrained parameter x {default, 4 replaced constraints}: setter/oob/history; distinct = "
@@ -62,6 +63,10 @@ def generate(ctx):
     _state["tr"] = tr
     from translate import g6_priors
     changed = g6_priors.generate(C.REPO, os.path.join(C.LEAN_DIR, "GPVerif", "Gen", "Priors.lean")) or changed
+    from translate import g5_initialize
+    tri, ch2 = g5_initialize.generate(C.REPO, os.path.join(C.LEAN_DIR, "GPVerif", "Gen", "InitDispatch.lean"))
+    changed = ch2 or changed
+    ctx.notes["initialize_dispatch"] = tri.info
     ctx.notes["gen_changed"] = changed
     ctx.notes["standard_setters"] = len(tr.std_setters)
     ctx.notes["nonstandard_setters"] = [list(x) for x in tr.nonstd_setters]
@@ -971,6 +976,586 @@ def sweep_initial_values(ctx, rng):
                              f"{str(e)[:80]}", {"kind": "initial-value", "host": host, "constraint": cname})
 
 
+# ------------------------------------------------------------------ (3c) one initialize(**kwargs) call with several (dotted) names
+
+def _init_scenarios():
+    """Module trees on which `initialize(**kwargs)` is called with several plain / dotted names (name -> builder)."""
+    import torch
+    import gpytorch
+    from gpytorch.constraints import Interval
+    K, L, M = gpytorch.kernels, gpytorch.likelihoods, gpytorch.means
+
+    class _GP(gpytorch.models.ExactGP):
+        def __init__(self, covar, mean, lik=None):
+            x = torch.linspace(0, 1, 5, dtype=torch.float64).unsqueeze(-1)
+            super().__init__(x, torch.sin(3 * x.squeeze(-1)), lik if lik is not None else L.GaussianLikelihood())
+            self.mean_module = mean
+            self.covar_module = covar
+
+        def forward(self, x):
+            return gpytorch.distributions.MultivariateNormal(self.mean_module(x), self.covar_module(x))
+
+    cm = lambda: M.ConstantMean(constant_constraint=Interval(-5.0, 5.0))
+    return {
+        "kernel:Scale(RBF)": lambda: K.ScaleKernel(K.RBFKernel()),
+        "kernel:Scale(Periodic)": lambda: K.ScaleKernel(K.PeriodicKernel()),
+        "model:GP(Scale(RBF),ConstantMean[Interval])": lambda: _GP(K.ScaleKernel(K.RBFKernel()), cm()),
+        "model:GP(RBF+Matern)": lambda: _GP(K.RBFKernel() + K.MaternKernel(nu=2.5), cm()),
+        "kernel:Scale(Scale(RQ)+Linear)": lambda: K.ScaleKernel(K.ScaleKernel(K.RQKernel()) + K.LinearKernel()),
+        "kernel:Scale(Periodic)*Cosine": lambda: K.ScaleKernel(K.PeriodicKernel()) * K.CosineKernel(),
+        "model:GP(Scale(Matern)+Scale(Periodic))": lambda: _GP(K.ScaleKernel(K.MaternKernel(nu=1.5)) + K.ScaleKernel(K.PeriodicKernel()), cm()),
+        "modellist:2xGP(Scale(RBF))": lambda: gpytorch.models.IndependentModelList(
+            _GP(K.ScaleKernel(K.RBFKernel()), cm()), _GP(K.ScaleKernel(K.MaternKernel()), cm())),
+        # python-side only (tensor-valued / unconstrained parameters are outside the scalar store model)
+        "model:GP(Scale(RBF-ARD2),ConstantMean[unconstrained])": lambda: _GP(K.ScaleKernel(K.RBFKernel(ard_num_dims=2)), M.ConstantMean()),
+    }
+
+
+def enumerate_init_names(root):
+    """The tree `initialize` sees: module paths (with the ModuleList flag), plain names of every gpytorch module
+    (raw parameters, public properties with a setter, the likelihood's `noise` / `raw_noise` aliases), parameters."""
+    import torch
+    import gpytorch
+    modules, leaves, params, pid_of = [], [], [], {}
+
+    def pid(owner, rawname):
+        p_ = owner._parameters[rawname]
+        if id(p_) not in pid_of:
+            pid_of[id(p_)] = len(params)
+            params.append((owner, rawname))
+        return pid_of[id(p_)]
+
+    for mpath, mod in root.named_modules(remove_duplicate=False):
+        segs = tuple(mpath.split(".")) if mpath else ()
+        is_list = isinstance(mod, torch.nn.ModuleList)
+        if not (is_list or isinstance(mod, gpytorch.Module)):
+            continue
+        modules.append((segs, is_list))
+        if is_list:
+            continue
+        for rawname, p_ in mod._parameters.items():
+            if p_ is None:
+                continue
+            i = pid(mod, rawname)
+            leaves.append((segs + (rawname,), "r", i))
+            if rawname.startswith("raw_"):
+                prop = getattr(type(mod), rawname[4:], None)
+                if isinstance(prop, property) and prop.fset is not None:
+                    leaves.append((segs + (rawname[4:],), "p", i))
+        nc = getattr(mod, "noise_covar", None)
+        if isinstance(mod, gpytorch.likelihoods.GaussianLikelihood) and nc is not None and "raw_noise" in getattr(nc, "_parameters", {}):
+            i = pid(nc, "raw_noise")
+            leaves.append((segs + ("noise",), "p", i))
+            leaves.append((segs + ("raw_noise",), "r", i))
+    return modules, leaves, params
+
+
+def _param_state(params):
+    """[(read tensor, raw tensor)] per parameter."""
+    out = []
+    for owner, rawname in params:
+        raw = owner._parameters[rawname].detach().clone()
+        con = owner.constraint_for_parameter_name(rawname)
+        out.append(((con.transform(raw) if con is not None else raw).clone(), raw))
+    return out
+
+
+def _apply_kwargs(root, kwargs, one_by_one):
+    """One `initialize(**kwargs)` call, or the fold of the single-name calls (the specification); returns raised."""
+    try:
+        with warnings.catch_warnings():
+            warnings.simplefilter("ignore")
+            if one_by_one:
+                for k, v in kwargs.items():
+                    root.initialize(**{k: v})
+            else:
+                root.initialize(**kwargs)
+        return None
+    except Exception as e:
+        return f"{type(e).__name__}: {str(e)[:80]}"
+
+
+def _mk_value(form, v, shape):
+    import torch
+    if form == "float":
+        return float(v)
+    if form == "tensor0":
+        return torch.tensor(v, dtype=torch.float64)
+    return torch.full(shape, v, dtype=torch.float64)
+
+
+def run_multi_init_case(ctx, sname, items, lean_lines=None, lean_recs=None, tag=""):
+    """items: [[dotted name, float value, form]] in kwargs order.  Runs ONE initialize call on a fresh tree of scenario
+    `sname`, judges it by the fold of single-name calls on a second fresh tree, optionally queues the Lean request."""
+    import copy
+    import torch
+    mk = _init_scenarios()[sname]
+    with warnings.catch_warnings():
+        warnings.simplefilter("ignore")
+        root = mk().double()
+    ref = copy.deepcopy(root)
+    modules, leaves, params = enumerate_init_names(root)
+    _, _, params_ref = enumerate_init_names(ref)
+    by_name = {".".join(path): (t, i) for path, t, i in leaves}
+    shape_of = lambda name: tuple(params[by_name[name][1]][0]._parameters[params[by_name[name][1]][1]].shape) if name in by_name else ()
+    kwargs = {name: _mk_value(form, v, shape_of(name)) for name, v, form in items}
+    before = _param_state(params)
+    raised = _apply_kwargs(root, kwargs, one_by_one=False)
+    raised_ref = _apply_kwargs(ref, {k: (v.clone() if torch.is_tensor(v) else v) for k, v in kwargs.items()}, one_by_one=True)
+    after, want = _param_state(params), _param_state(params_ref)
+    rp = {"kind": "multi-init", "scenario": sname, "kwargs": [list(it) for it in items]}
+    names = [it[0] for it in items]
+    call = f"{sname}.initialize(**{{" + ", ".join(f"{n!r}: {v!r}" for n, v, _ in items) + "})"
+    pname = lambda i: type(params[i][0]).__name__ + "." + params[i][1]
+    ok = True
+    if raised_ref is None:
+        # nothing may raise; every parameter reads what the LAST pair denoting it assigned, the others are untouched
+        if raised is not None:
+            ctx.fail(f"initialize:multi-name:{sname}", f"{call} raised {raised}; the same assignments made one by one are all accepted", rp)
+            return False
+        for i, ((rd, rw), (rd_w, rw_w)) in enumerate(zip(after, want)):
+            if not (torch.equal(rw, rw_w) and torch.equal(rd, rd_w)):
+                assigned = [f"{n}={v!r}" for n, v, _ in items if n in by_name and by_name[n][1] == i]
+                what = (f"assigned by {assigned} in that call" if assigned else "not named in that call")
+                ctx.fail(f"initialize:multi-name:{sname}", f"{call}: {pname(i)} ({what}) reads {rd.flatten()[:3].tolist()} afterwards; "
+                         f"assigning the same pairs one after the other gives {rd_w.flatten()[:3].tolist()} (before the call: "
+                         f"{before[i][0].flatten()[:3].tolist()})", rp)
+                return False
+    else:
+        # some pair is rejected: the call must raise, every read stays inside its bounds; the order of effects around the
+        # raise is compared with the fold as a model-level observable
+        if raised is None:
+            ctx.fail(f"initialize:multi-name-oob:{sname}", f"{call} was accepted although assigning the pairs one by one raises {raised_ref}", rp)
+            return False
+        for i, (rd, rw) in enumerate(after):
+            con = params[i][0].constraint_for_parameter_name(params[i][1])
+            if con is not None and con.enforced and not in_bounds(rd, con):
+                ctx.fail(f"bounds:initialize:multi-name:{sname}", f"after the rejected {call}: {pname(i)} reads {rd.flatten()[:3].tolist()} outside {con}", rp)
+                return False
+        if any(not torch.equal(a[1], w[1]) for a, w in zip(after, want)):
+            ok = False
+            ctx.broke("correspondence", f"initialize-raise-order:{sname}", f"{call} raises like the fold of single assignments but leaves a "
+                      "different store behind (effects before / after the rejected pair)")
+    # Lean: the regenerated program and the specification on the same tree (scalar, default-transform parameters only)
+    if lean_lines is not None:
+        cons = [o.constraint_for_parameter_name(r) for o, r in params]
+        kinds = [kind_of(c) if c is not None else None for c in cons]
+        if all(k is not None for k in kinds) and all(o._parameters[r].numel() == 1 for o, r in params) and len(lean_lines) < (260 if ctx.quick else 2500):
+            ids = {}
+            seg = lambda s_: ids.setdefault(s_, len(ids))
+            pth = lambda path: ".".join(str(seg(x)) for x in path) if path else "-"
+            toks = ["N", str(len(modules))]
+            for path, is_list in modules:
+                toks += [pth(path), "1" if is_list else "0"]
+            toks.append(str(len(leaves)))
+            for path, t, i in leaves:
+                toks += [pth(path), t, str(i)]
+            toks.append(str(len(params)))
+            fl = lambda z: bits(z if math.isfinite(z) else 0.0)
+            pinfo = []
+            for (o, r), c, k, (rd0, rw0) in zip(params, cons, kinds, before):
+                l, u = bounds_of(c)
+                toks += [KIND_LETTER[k], fl(l), fl(u), bits(rw0.flatten()[0].item())]
+                pinfo.append((k, l, u))
+            toks.append(str(len(items)))
+            for n, v, _ in items:
+                toks += [pth(tuple(n.split("."))), bits(v)]
+            lean_lines.append(" ".join(toks))
+            lean_recs.append((sname, call, rp, raised is not None, [(rd.flatten()[0].item(), rw.flatten()[0].item()) for rd, rw in after], pinfo))
+    return ok
+
+
+def sweep_multi_initialize(ctx, rng):
+    """ONE `initialize(**kwargs)` call carrying several names: plain and dotted mixed, nesting up to four levels, through
+    `nn.ModuleList` indices, several names below the same direct child, the same parameter named twice (public + raw
+    name, likelihood alias), an out-of-bounds value or an unknown name in the middle.  Specification: the fold of the
+    single-name calls (theorems `gen_initialize_eq_fold`, `initialize_multi_reads_back`)."""
+    lean_lines, lean_recs = [], []
+    scen = _init_scenarios()
+    reps = 6 if ctx.quick else 40
+    for sname, mk in scen.items():
+        with warnings.catch_warnings():
+            warnings.simplefilter("ignore")
+            root = mk().double()
+        modules, leaves, params = enumerate_init_names(root)
+        cons = [o.constraint_for_parameter_name(r) for o, r in params]
+        names = [(".".join(path), t, i) for path, t, i in leaves]
+        dotted = [x for x in names if "." in x[0]]
+        groups = {}
+        for x in dotted:
+            groups.setdefault(x[0].split(".")[0], []).append(x)
+        multi = [g for g in groups.values() if len({y[2] for y in g}) >= 2]
+        for rep in range(reps):
+            pattern = rng.choice(["same-child", "same-child", "mixed", "all", "duplicate", "oob", "unknown"])
+            k = rng.randint(2, 6)
+            if pattern in ("same-child", "oob", "unknown") and multi:
+                g = rng.choice(multi)
+                pick = rng.sample(g, min(len(g), rng.randint(2, 4)))
+                pick += rng.sample(names, min(len(names), rng.randint(0, 2)))
+            elif pattern == "all":
+                seen, pick = set(), []
+                for x in rng.sample(names, len(names)):
+                    if x[2] not in seen:
+                        seen.add(x[2])
+                        pick.append(x)
+            elif pattern == "duplicate":
+                i = rng.choice(sorted({x[2] for x in names}))
+                same = [x for x in names if x[2] == i]
+                pick = rng.sample(same, min(len(same), rng.randint(2, 3))) + rng.sample(names, min(len(names), 2))
+            else:
+                pick = rng.sample(names, min(len(names), k))
+            seen_n, items = set(), []
+            for n, t, i in pick:
+                if n in seen_n:
+                    continue
+                seen_n.add(n)
+                con = cons[i]
+                shape = tuple(params[i][0]._parameters[params[i][1]].shape)
+                if t == "r" or con is None:
+                    v = rng.uniform(-3.0, 3.0)
+                    form = rng.choice(["tensor", "tensor0"])
+                else:
+                    l, u = bounds_of(con)
+                    kind = kind_of(con) or "Interval"
+                    v = interior_values(rng, kind, l, u, ()).item()
+                    form = rng.choice(["float", "tensor", "tensor0"])
+                items.append([n, v, form])
+            if pattern == "oob":
+                cand = [j for j, (n, v, f) in enumerate(items) if by_t(names, n) == "p" and cons[by_i(names, n)] is not None]
+                if cand:
+                    j = rng.choice(cand)
+                    l, u = bounds_of(cons[by_i(names, items[j][0])])
+                    items[j][1] = (l - rng.uniform(0.1, 2.0)) if math.isfinite(l) else (u + rng.uniform(0.1, 2.0))
+            if pattern == "unknown":
+                bad = rng.choice(["nonexistent_parameter", (dotted[0][0].rsplit(".", 1)[0] + ".nonexistent") if dotted else "bogus.x", "bogus_module.lengthscale"])
+                items.insert(rng.randint(0, len(items)), [bad, 0.5, "float"])
+            depth = max(n.count(".") for n, _, _ in items)
+            heads = [n.split(".")[0] for n, _, _ in items if "." in n]
+            same_child = max([heads.count(h) for h in set(heads)] or [0])
+            ctx.case(f"I:{sname}:{pattern}:n{len(items)}:depth{depth}:same-child{min(same_child, 3)}",
+                     sample={"scenario": sname, "kwargs": items})
+            ctx.count("multi_initialize_calls")
+            if same_child >= 2:
+                ctx.count("multi_initialize_calls_with_2+_names_below_one_child")
+            try:
+                run_multi_init_case(ctx, sname, items, lean_lines, lean_recs)
+            except Exception:
+                import traceback
+                ctx.broke("correspondence", f"multi-initialize:{sname}", traceback.format_exc())
+    return lean_lines, lean_recs
+
+
+def by_t(names, n):
+    return next((t for m, t, _ in names if m == n), None)
+
+
+def by_i(names, n):
+    return next((i for m, _, i in names if m == n), None)
+
+
+def compare_lean_multi_init(ctx, recs, replies):
+    bad = 0
+    for (sname, call, rp, raised, cells, pinfo), rep in zip(recs, replies):
+        halves = rep.split(" | ")
+        if len(halves) != 2 or not halves[0].startswith("G ") or not halves[1].startswith("S "):
+            ctx.broke("correspondence", f"driver:N:{sname}", f"reply {rep[:200]!r}")
+            continue
+        g, sp = halves[0].split()[1:], halves[1].split()[1:]
+        ctx.count("lean_multi_init_lines")
+        if g != sp:
+            bad += 1
+            if bad <= 3:
+                ctx.broke("correspondence", f"generated initialize dispatch vs initFold:{sname}",
+                          f"{call}: the program regenerated from Module.initialize and the fold of single assignments give different stores")
+        for who, toks in (("generated", g), ("spec", sp)):
+            m_raised = toks[0] == "1"
+            ok = (m_raised == raised) and len(toks) == 1 + len(cells)
+            if ok and not raised:
+                for (rd, rw), t, (k, l, u) in zip(cells, toks[1:], pinfo):
+                    m_rd, m_rw = (unbits(z) for z in t.split(":"))
+                    if not (abs(m_rd - rd) <= transform_tol(k, l, u, rw, rd) + 1e-9 * max(1.0, abs(rd))
+                            and abs(m_rw - rw) <= inverse_tol(k, l, u, rd, rw) + 1e-9 * max(1.0, abs(rw))):
+                        ok = False
+            if not ok:
+                bad += 1
+                if bad <= 6:
+                    if who == "spec" and not raised and not m_raised:
+                        ctx.fail(f"initialize:multi-name:model:{sname}", f"{call}: the parameters read {[c[0] for c in cells]} afterwards; the fold of the "
+                                 f"single assignments (store model) gives {[unbits(t.split(':')[0]) for t in toks[1:]]}", rp)
+                    else:
+                        ctx.broke("correspondence", f"{who} initialize vs implementation:{sname}",
+                                  f"{call}: real raised={raised} cells={cells}; {who} model: {' '.join(toks)[:300]}")
+    ctx.count("lean_multi_init_mismatches", bad)
+
+
+# ------------------------------------------------------------------ (4c) prior hyper-parameters changed after construction
+
+def _dyadic(rng, lo, hi, den=64):
+    """value in [lo, hi] that float32 represents exactly (k/64), so that dtype moves do not change it"""
+    return rng.randint(int(math.ceil(lo * den)), int(math.floor(hi * den))) / den
+
+
+def _prior_families():
+    """name -> (draw hyper-parameters, build, state-dict keys of the hyper-parameters in draw order (None: not persisted),
+    public attributes, scipy log density, Lean request, a point of the support)"""
+    import numpy as np
+    import scipy.special as sp
+    import scipy.stats as st
+    from gpytorch import priors as P
+    fam = {}
+    fam["NormalPrior"] = dict(
+        draw=lambda r: [_dyadic(r, -2, 2), _dyadic(r, 0.25, 3)], build=lambda h: P.NormalPrior(h[0], h[1]),
+        keys=["loc", "scale"], attrs=["loc", "scale"], ref=lambda h, x: st.norm.logpdf(x, h[0], h[1]),
+        lean=lambda h, x: f"P normal {bits(h[0])} {bits(h[1])} {bits(x)}", point=lambda r, h: h[0] + h[1] * r.gauss(0, 1.5))
+    fam["LogNormalPrior"] = dict(
+        draw=lambda r: [_dyadic(r, -1, 1.5), _dyadic(r, 0.25, 1.5)], build=lambda h: P.LogNormalPrior(h[0], h[1]),
+        keys=["_transformed_loc", "_transformed_scale"], attrs=["loc", "scale"],
+        ref=lambda h, x: st.lognorm.logpdf(x, h[1], scale=math.exp(h[0])),
+        lean=lambda h, x: f"P lognormal {bits(h[0])} {bits(h[1])} {bits(x)}", point=lambda r, h: math.exp(h[0] + h[1] * r.gauss(0, 1.2)))
+    fam["HalfNormalPrior"] = dict(
+        draw=lambda r: [_dyadic(r, 0.25, 4)], build=lambda h: P.HalfNormalPrior(h[0]),
+        keys=["_transformed_scale"], attrs=["scale"], ref=lambda h, x: st.halfnorm.logpdf(x, scale=h[0]),
+        lean=lambda h, x: f"P halfnormal {bits(h[0])} {bits(x)}", point=lambda r, h: abs(h[0] * r.gauss(0, 1.5)) + 1e-3)
+    fam["HalfCauchyPrior"] = dict(
+        draw=lambda r: [_dyadic(r, 0.25, 8)], build=lambda h: P.HalfCauchyPrior(h[0]),
+        keys=["_transformed_scale"], attrs=["scale"], ref=lambda h, x: st.halfcauchy.logpdf(x, scale=h[0]),
+        lean=lambda h, x: f"P halfcauchy {bits(h[0])} {bits(x)}", point=lambda r, h: abs(h[0] * math.tan(r.uniform(0.05, 1.4))))
+    fam["GammaPrior"] = dict(
+        draw=lambda r: [_dyadic(r, 0.5, 6), _dyadic(r, 0.25, 5)], build=lambda h: P.GammaPrior(h[0], h[1]),
+        keys=["concentration", "rate"], attrs=["concentration", "rate"], ref=lambda h, x: st.gamma.logpdf(x, h[0], scale=1 / h[1]),
+        lean=lambda h, x: f"P gamma {bits(h[0])} {bits(h[1])} {bits(sp.gammaln(h[0]))} {bits(x)}",
+        point=lambda r, h: st.gamma.ppf(r.uniform(0.05, 0.95), h[0], scale=1 / h[1]))
+
+    def sbox_ref(h, x):
+        d = max(h[0] - x, x - h[1], 0.0)
+        return st.norm.logpdf(d, 0, h[2]) - math.log1p((h[1] - h[0]) / (math.sqrt(2 * math.pi) * h[2]))
+
+    def sbox_draw(r):
+        a = _dyadic(r, 0.0, 1.0)
+        return [a, a + _dyadic(r, 0.25, 2), _dyadic(r, 0.0625, 0.5)]
+    fam["SmoothedBoxPrior"] = dict(
+        draw=sbox_draw, build=lambda h: P.SmoothedBoxPrior(h[0], h[1], sigma=h[2]),
+        keys=["a", "b", "sigma"], attrs=["a", "b", "sigma"], ref=sbox_ref,
+        lean=lambda h, x: f"P sbox {bits(h[0])} {bits(h[1])} {bits(h[2])} {bits(x)}",
+        point=lambda r, h: r.choice([r.uniform(h[0], h[1]), h[0] - h[2] * abs(r.gauss(0, 1.5)), h[1] + h[2] * abs(r.gauss(0, 1.5))]))
+
+    def hs_ref(h, x):
+        Kc = 1 / math.sqrt(2 * math.pi ** 3)
+        A = (h[0] / x) ** 2
+        return math.log((Kc / 2 * math.log1p(4 * A) + Kc * math.log1p(2 * A)) / 2)
+    fam["HorseshoePrior"] = dict(
+        draw=lambda r: [_dyadic(r, 0.25, 4)], build=lambda h: P.HorseshoePrior(h[0]),
+        keys=["scale"], attrs=["scale"], ref=hs_ref,
+        lean=lambda h, x: f"P horseshoe {bits(h[0])} {bits(x)}", point=lambda r, h: h[0] * 10 ** r.uniform(-1, 1))
+
+    def uni_draw(r):
+        a = _dyadic(r, 0.0, 0.5)
+        return [a, a + _dyadic(r, 1.0, 3.0)]
+    fam["UniformPrior"] = dict(   # low / high are plain attributes (C18 known finding): a load must leave them alone
+        draw=uni_draw, build=lambda h: P.UniformPrior(h[0], h[1]),
+        keys=None, attrs=["low", "high"], ref=lambda h, x: st.uniform.logpdf(x, h[0], h[1] - h[0]),
+        lean=lambda h, x: f"P uniform {bits(h[0])} {bits(h[1])}", point=lambda r, h: r.uniform(0.51, 0.99))   # inside every drawn support
+    return fam
+
+
+def _prior_hosts():
+    """name -> (build(prior) -> (root module, dotted path of the prior below root))."""
+    import torch
+    import gpytorch
+    K, L = gpytorch.kernels, gpytorch.likelihoods
+
+    class _GP(gpytorch.models.ExactGP):
+        def __init__(self, covar, lik):
+            x = torch.linspace(0, 1, 5, dtype=torch.float64).unsqueeze(-1)
+            super().__init__(x, torch.sin(3 * x.squeeze(-1)), lik)
+            self.mean_module = gpytorch.means.ZeroMean()
+            self.covar_module = covar
+
+        def forward(self, x):
+            return gpytorch.distributions.MultivariateNormal(self.mean_module(x), self.covar_module(x))
+
+    def holder(p):
+        h = torch.nn.Module()
+        h.kernel = K.ScaleKernel(K.RBFKernel(), outputscale_prior=p)
+        return h, "kernel.outputscale_prior"
+
+    def mlist(p):
+        return torch.nn.ModuleList([K.MaternKernel(), K.RBFKernel(lengthscale_prior=p)]), "1.lengthscale_prior"
+    return {
+        "kernel": lambda p: (K.RBFKernel(lengthscale_prior=p), "lengthscale_prior"),
+        "scale-kernel": lambda p: (K.ScaleKernel(K.RBFKernel(lengthscale_prior=p)), "base_kernel.lengthscale_prior"),
+        "likelihood": lambda p: (L.GaussianLikelihood(noise_prior=p), "noise_covar.noise_prior"),
+        "model": lambda p: (_GP(K.ScaleKernel(K.MaternKernel(lengthscale_prior=p)), L.GaussianLikelihood()),
+                            "covar_module.base_kernel.lengthscale_prior"),
+        "model-likelihood": lambda p: (_GP(K.RBFKernel(), L.GaussianLikelihood(noise_prior=p)), "likelihood.noise_covar.noise_prior"),
+        "nn.Module-holder": holder,
+        "nn.ModuleList": mlist,
+    }
+
+
+def _get_path(mod, dotted):
+    for part in dotted.split("."):
+        mod = mod[int(part)] if part.isdigit() else getattr(mod, part)
+    return mod
+
+
+PRE_OPS = ["none", "none", "used", "dtype-move", "deepcopy", "pickle", "setattr"]
+LOAD_OPS = ["parent.load_state_dict", "parent.load_state_dict(strict=False)", "parent.load_state_dict(torch.save/load)",
+            "prior.load_state_dict", "setattr"]
+POST_OPS = ["none", "none", "deepcopy", "pickle", "dtype-move"]
+
+
+def run_prior_reload_case(ctx, fname, host, pre, load, post, h1, h2, xs, seed, lean_lines=None, lean_recs=None):
+    """Build `host` with a prior of family `fname` and hyper-parameters h1; (pre-op); give it the hyper-parameters h2
+    through `load`; (post-op); the prior must then BE the prior with hyper-parameters h2: state dict, public attributes,
+    log density at `xs`, density of the registered parameter, samples."""
+    import copy
+    import io
+    import pickle
+    import torch
+    fam = _prior_families()[fname]
+    mkhost = _prior_hosts()[host]
+    with warnings.catch_warnings():
+        warnings.simplefilter("ignore")
+        root, ppath = mkhost(fam["build"](h1))
+        src, _ = mkhost(fam["build"](h2))
+    root, src = root.double(), src.double()
+    how = (pre + "+" if pre != "none" else "") + load + ("+" + post if post != "none" else "")
+    key = f"prior-reload:{fname}:{how}"
+    rp = {"kind": "prior-reload", "prior": fname, "host": host, "pre": pre, "load": load, "post": post, "h1": h1, "h2": h2,
+          "xs": xs, "seed": seed}
+    t = lambda v: torch.tensor(v, dtype=torch.float64)
+    if pre == "used":
+        _get_path(root, ppath).log_prob(t(xs[0]))
+    elif pre == "dtype-move":
+        root = root.float().double()
+    elif pre == "deepcopy":
+        root = copy.deepcopy(root)
+    elif pre == "pickle":
+        try:
+            root = pickle.loads(pickle.dumps(root))
+        except Exception:
+            ctx.count("prior_reload_unpicklable_host")
+    elif pre == "setattr" and fam["keys"] is not None:
+        pr = _get_path(root, ppath)
+        for a, v in zip(fam["attrs"], h1):      # same values, new tensors: goes through Prior.__setattr__
+            setattr(pr, a, t(v))
+    pr = _get_path(root, ppath)
+    expect = h2
+    sd = src.state_dict()
+    if load.startswith("parent.load_state_dict"):
+        if "torch.save" in load:
+            buf = io.BytesIO()
+            torch.save(sd, buf)
+            buf.seek(0)
+            sd = torch.load(buf)
+        else:
+            sd = {k: v.clone() for k, v in sd.items()}
+        root.load_state_dict(sd, strict=("strict=False" not in load))
+    elif load == "prior.load_state_dict":
+        pr.load_state_dict({k[len(ppath) + 1:]: v.clone() for k, v in sd.items() if k.startswith(ppath + ".")})
+    elif load == "setattr":
+        if fam["keys"] is None or fname in ("SmoothedBoxPrior",):
+            expect = h1     # no documented assignment path for these: nothing is changed
+        else:
+            for a, v in zip(fam["attrs"], h2):
+                setattr(pr, a, t(v))
+    if fam["keys"] is None and load != "setattr":
+        expect = h1         # hyper-parameters are not part of the state dict: a load leaves them alone
+    if post == "deepcopy":
+        root = copy.deepcopy(root)
+    elif post == "pickle":
+        try:
+            root = pickle.loads(pickle.dumps(root))
+        except Exception:
+            ctx.count("prior_reload_unpicklable_host")
+    elif post == "dtype-move":
+        root = root.float().double()
+    pr = _get_path(root, ppath)
+    # 1. the state dict and the public attributes show the expected hyper-parameters
+    if fam["keys"] is not None:
+        psd = pr.state_dict()
+        got_sd = [float(psd[k].flatten()[0]) for k in fam["keys"]]
+        if got_sd != expect:
+            ctx.fail(key, f"{fname} in {host}: after {how} the prior's state dict holds {got_sd}, expected {expect}", rp)
+            return False
+    got_attr = [float(getattr(pr, a).flatten()[0]) for a in fam["attrs"]]
+    if got_attr != expect:
+        ctx.fail(key, f"{fname} in {host}: after {how} the state dict says {expect} but prior.{'/'.join(fam['attrs'])} = {got_attr}", rp)
+        return False
+    # 2. the density is the documented one with these hyper-parameters
+    for x in xs:
+        got = pr.log_prob(t([x]) if fname == "SmoothedBoxPrior" else t(x)).item()
+        want = float(fam["ref"](expect, x))
+        if not abs(got - want) <= 1e-9 * (1 + abs(want)):
+            ctx.fail(key, f"{fname} in {host}: after {how} the hyper-parameters are {expect} (state dict / attributes) but "
+                     f"log_prob({x!r}) = {got!r}; the documented density with them gives {want!r} (with the construction-time "
+                     f"{h1}: {float(fam['ref'](h1, x))!r})", rp)
+            return False
+        if lean_lines is not None:
+            lean_lines.append(fam["lean"](expect, x))
+            lean_recs.append((fname, got, dict(rp, x=x)))
+    # 3. the registration evaluates the density of the (loaded) constrained value
+    import gpytorch
+    if isinstance(root, gpytorch.Module):
+        for name, mod, p_, closure, _ in root.named_priors():
+            if p_ is pr:
+                val = closure(mod).detach()
+                got = p_.log_prob(val).sum().item()
+                v0 = val.flatten()[0].item()
+                try:
+                    want = float(fam["ref"](expect, v0)) * val.numel()
+                except Exception:
+                    continue
+                if math.isfinite(want) and not abs(got - want) <= 1e-9 * (1 + abs(want)):
+                    ctx.fail(key, f"{fname} in {host}: after {how} log_prob(closure(module)) = {got!r} for the value {v0!r}; documented "
+                             f"density with {expect}: {want!r}", rp)
+                    return False
+    # 4. samples come from the prior with these hyper-parameters
+    if fname != "HorseshoePrior":
+        try:
+            torch.manual_seed(seed)
+            s_got = pr.sample(torch.Size([3]))
+            torch.manual_seed(seed)
+            s_want = fam["build"](expect).double().sample(torch.Size([3]))
+            if s_got.shape != s_want.shape or not torch.allclose(s_got.double(), s_want.double(), rtol=1e-6, atol=1e-9):
+                ctx.fail(key, f"{fname} in {host}: after {how} sample() (seed {seed}) gives {s_got.flatten().tolist()}, a prior built with "
+                         f"{expect} gives {s_want.flatten().tolist()}", rp)
+                return False
+        except NotImplementedError:
+            pass
+    return True
+
+
+def sweep_prior_reload(ctx, rng):
+    """Build -> (use / move / copy) -> reload or re-assign the hyper-parameters -> (copy / move) -> evaluate: every scalar prior
+    family x the module through which the state dict is loaded (owner, grand-parent kernel, likelihood, ExactGP, plain
+    nn.Module, nn.ModuleList) x how the hyper-parameters arrive."""
+    lean_lines, lean_recs = [], []
+    fams = _prior_families()
+    hosts = list(_prior_hosts())
+    reps = 5 if ctx.quick else 30
+    for fname, fam in fams.items():
+        combos = [(h, "none", "parent.load_state_dict", "none") for h in hosts]            # every host once, plain
+        combos += [(rng.choice(hosts), "dtype-move", "parent.load_state_dict", "none"),
+                   (rng.choice(hosts), "none", "prior.load_state_dict", "none")]
+        combos += [(rng.choice(hosts), rng.choice(PRE_OPS), rng.choice(LOAD_OPS), rng.choice(POST_OPS)) for _ in range(reps)]
+        for host, pre, load, post in combos:
+            h1, h2 = fam["draw"](rng), fam["draw"](rng)
+            if h1 == h2:
+                h2 = fam["draw"](rng)
+            xs = [float(fam["point"](rng, h2)) for _ in range(2)]
+            seed = rng.torch_seed()
+            ctx.case(f"PR:{fname}:{host}:{pre}:{load}:{post}", sample={"prior": fname, "host": host, "h1": h1, "h2": h2})
+            ctx.count("prior_reload_cases")
+            try:
+                run_prior_reload_case(ctx, fname, host, pre, load, post, h1, h2, xs, seed, lean_lines, lean_recs)
+            except Exception:
+                import traceback
+                ctx.broke("correspondence", f"prior-reload:{fname}:{host}", traceback.format_exc())
+    return lean_lines, lean_recs
+
+
 # ------------------------------------------------------------------ (4) priors
 
 def documented_smoothed_box_denominator():
@@ -1473,16 +2058,20 @@ def correspondence(ctx, want_driver=True):
         sweep_bound_changes(ctx, ctx.rng("bound-changes"))
         sweep_aliasing(ctx, ctx.rng("aliasing"))
         sweep_initial_values(ctx, ctx.rng("initial-values"))
+        il, ir = sweep_multi_initialize(ctx, ctx.rng("multi-initialize"))
         pl, pr = sweep_priors(ctx)
+        rl, rr = sweep_prior_reload(ctx, ctx.rng("prior-reload"))
+        pl, pr = pl + rl, pr + rr
         observation_initialize_float(ctx)
         if want_driver:
-            n1, n2 = len(tl), len(ml)
-            lines = tl + ml + pl   # one driver start for all three streams
+            n1, n2, n3 = len(tl), len(ml), len(il)
+            lines = tl + ml + il + pl   # one driver start for all streams
             if lines:
                 replies = C.run_driver("C17", lines)
                 compare_lean_transforms(ctx, tr, replies[:n1])
                 compare_lean_histories(ctx, mr, replies[n1:n1 + n2])
-                compare_lean_priors(ctx, pr, replies[n1 + n2:])
+                compare_lean_multi_init(ctx, ir, replies[n1 + n2:n1 + n2 + n3])
+                compare_lean_priors(ctx, pr, replies[n1 + n2 + n3:])
     finally:
         torch.set_default_dtype(torch.float32)
     _state["ran"] = True
@@ -1527,6 +2116,23 @@ def replay(ctx, payload):
         finally:
             torch.set_default_dtype(torch.float32)
         return not any(f["key"] == payload["key"] for f in sub.failures)
+    if k == "multi-init":
+        sub = Ctx2()
+        torch.set_default_dtype(torch.float64)
+        try:
+            ok = run_multi_init_case(sub, case["scenario"], case["kwargs"])
+        finally:
+            torch.set_default_dtype(torch.float32)
+        return bool(ok) and not sub.failures
+    if k == "prior-reload":
+        sub = Ctx2()
+        torch.set_default_dtype(torch.float64)
+        try:
+            ok = run_prior_reload_case(sub, case["prior"], case["host"], case["pre"], case["load"], case["post"], case["h1"],
+                                       case["h2"], case["xs"], case["seed"])
+        finally:
+            torch.set_default_dtype(torch.float32)
+        return bool(ok) and not sub.failures
     if k == "shared-prior":
         sub = Ctx2()
         torch.set_default_dtype(torch.float64)
